@@ -135,6 +135,7 @@ func checkLedger(own, tier string) int {
 		w0, _ := world.New(params)
 		lm := newLedgerMonitor(r, own, w0, hseed)
 		cfg := drive.Cfg{Tag: strings.ToLower(own), Seed: hseed, Blocks: blocks, Params: params, Scripts: allScripts, Scout: true, Jumps: true, Absents: true, Honest: true}
+		cfg.Stray = i%2 == 0
 		if i >= nh {
 			cfg.Scripts = []string{"delegation-drain", "transfers", "valrewards"}
 			cfg.Jumps = i%2 == 1
